@@ -26,7 +26,8 @@ def describe(tier):
                 "(through injected evaluators) == mapping F->(True,conditional) N->(True,unconditional) U->(False,conditional) "
                 "UNKNOWN->(None,None). Expressions with <= 3 leaves are additionally evaluated with the answers delivered through the library's own "
                 "DictBased* evaluators (evaluator_factory), its ContentEvaluationResultBased* evaluators and user-style method-based "
-                "evaluators with per-instance state (a new instance per assignment). A (expression, assignment) pair is non-trivial if the expression has >= 1 operator and the assignment "
+                "evaluators with per-instance state (a new instance per assignment), and four 3-key expressions (one with a repeated key) under all 6 permutations of "
+                "F/U/UNKNOWN and ALL completion orders of suspending evaluate_<key> coroutines (virtual event loop). A (expression, assignment) pair is non-trivial if the expression has >= 1 operator and the assignment "
                 "contains UNKNOWN or the expression contains a hint/FC.",
         "bounds": {"sizes": BOUNDS[tier]},
         "exhaustive": True,
@@ -35,6 +36,7 @@ def describe(tier):
 
 
 MODES = ("hardcoded", "cer", "methods")
+ORDER_EXPRS = ["[1] U ([2005] O [499])", "([499] X [1]) O [2005] U [501]", "[2005][901] U [1] O [499]", "([1] U [2005]) O ([1] U [499])"]
 
 
 def plan(tier, seed):
@@ -47,6 +49,10 @@ def plan(tier, seed):
             for p in range(parts):
                 items.append({"fam": "modes", "mode": mode, "n": n, "lab": "all" if n <= 3 else "distinct", "part": p, "parts": parts,
                               "seed": seed})
+    # requirement evaluators whose evaluate_<key> coroutines really suspend: ALL completion orders (virtual event loop, E3)
+    for e in range(len(ORDER_EXPRS)):
+        for perm in range(6):
+            items.append({"fam": "orders", "expr": e, "perm": perm, "early": 0 if tier == "quick" else 1})
     for n, lab in BOUNDS[tier]:
         parts = 1 if n <= 2 else (8 if n == 3 else NPART * (4 if n >= 5 else 1))
         for p in range(parts):
@@ -125,10 +131,59 @@ def check_expr_mode(expr, mode, only_assign=None):
     return out, n
 
 
+def _orders_setup(item):
+    import itertools
+    import json
+
+    from mc import vloop
+
+    I = X.init()
+    expr = ORDER_EXPRS[item["expr"]]
+    tt = X.parse(expr)[2]
+    keys = R3.keys_of(tt, "rc")
+    assign = dict(zip(sorted(keys), list(itertools.permutations(("F", "U", "?")))[item["perm"]]))
+    want = json.dumps(list(R3.outcome(R3.state(tt, assign))))
+
+    def factory(sched):
+        I.reset_evaluators()
+
+        async def y(kind, key):
+            await sched.point(f"{kind}:{key}")
+
+        env = I.Env(rc=assign, fc={"901": (True, None)}, hints={"501": "Hinweis"}, yielder=y)
+
+        async def main():
+            I.ENV.set(env)
+            r = await I.requirement_constraint_evaluation(expr)
+            return [r.requirement_constraints_fulfilled, r.requirement_is_conditional]
+
+        return main()
+
+    def observe(ex):
+        return json.dumps(["exception", type(ex.exception).__name__] if ex.exception is not None else ex.result)
+
+    return vloop, factory, observe, want, expr, assign
+
+
 def run_item(item):
     X.init()
     r = Result()
-    pools = X.pools(item["seed"])
+    pools = X.pools(item.get("seed", 0))
+    if item.get("fam") == "orders":
+        vloop, factory, observe, want, expr, assign = _orders_setup(item)
+        exp = vloop.explore(factory, observe, order_bound=None, early_bound=item["early"])
+        r.evaluations += exp.schedules
+        r.states += exp.decision_points
+        r.transitions += exp.decision_points
+        r.traces += exp.schedules
+        r.nontrivial += max(0, len(exp.completion_traces) - 1)
+        r.stat("schedules", exp.schedules)
+        for out in exp.outcomes:
+            if out != want:
+                r.violation("outcome-mapping/completion-order", {"orders": item, "choices": exp.first_schedule_of_outcome[out]}, want, out,
+                            f"{expr} under {assign}: some completion orders of the evaluate_<key> coroutines give another outcome")
+        r.sample({"expr": expr, "assign": assign, "schedules": exp.schedules})
+        return r
     if item.get("fam") == "modes":
         from mc import impl_modes as M
 
@@ -178,6 +233,10 @@ def run_item(item):
 
 
 def replay(case):
+    if "orders" in case:
+        vloop, factory, observe, want, expr, assign = _orders_setup(case["orders"])
+        out = observe(vloop.run_schedule(factory, case["choices"]))
+        return [] if out == want else [{"kind": "outcome-mapping/completion-order", "case": case, "expected": want, "observed": out}]
     if case.get("mode"):
         from mc import impl_modes as M
 
